@@ -11,6 +11,7 @@ import SplinkVerif.Drv.GraphMetrics
 import SplinkVerif.Drv.Descriptive
 import SplinkVerif.Drv.Accuracy
 import SplinkVerif.Drv.Serialise
+import SplinkVerif.Drv.Creators
 /-! Line-protocol driver: one JSON object per input line, one JSON object per output line. -/
 open Lean SplinkVerif.Drv
 
@@ -35,6 +36,7 @@ def dispatch (j : Json) : Except String Json := do
   | "acc_prepare" => handleAccPrepare j
   | "ser_save" => handleSerSave j
   | "ser_load" => handleSerLoad j
+  | "creator_calls" => handleCreatorCalls j
   | "ping" => pure (Json.mkObj [("pong", Json.bool true)])
   | _ => throw s!"unknown op {op}"
 
